@@ -27,7 +27,7 @@ ASSUMPTIONS = [
     "post-condition of each assignment and by views/namespace agreement only (an object has one name and one parent)",
     "the invariant is checked at quiescent points only (after a public setattr/add returns or raises), never inside a pass",
 ]
-REQUIRED_COUNTERS = ["M-ns.module", "M-ns.bundle", "export.compared", "reject.probes", "alias.ops"]
+REQUIRED_COUNTERS = ["M-ns.module", "M-ns.bundle", "export.compared", "reject.probes", "alias.ops", "taking.probed", "taking.refused", "taking.copy-accepted"]
 MIN_EVALS = 5000
 MIN_NONTRIVIAL = 3000
 
@@ -594,6 +594,120 @@ def post_elab_matrix(rec, must_raise):
                                   case={"kind": "probe", "what": what})
 
 
+def taking_probes(rec):
+    """An object which belongs to someone who cannot notice its loss - an elaborated Module (including what elaboration dissolved:
+    bundle-valued ports, arrays, pairs), an ExternalModule's or Primitive's declared ports - is offered to another Module / Bundle
+    under another name.  Refused; or else the owner is what it was: it exports, and is instantiated by a new parent, as before."""
+    import hdl21 as h
+    from hdl21.primitives import Primitive, PrimitiveType
+
+    E = lib()["E"]
+
+    def owner():
+        m = h.Module(name=f"Owner{next(_ctr)}")
+        m.s, m.p = h.Signal(), h.Input()
+        m.bp = h.Diff(port=True)
+        m.bi = h.Diff()
+        m.i = E()(z=m.s)
+        m.arr = 2 * E()(z=m.s)
+        m.pr = h.Pair(E())(z=m.bi)
+        m.r = h.R(r=1)(p=m.bp.p, n=m.bp.n)
+        m.r2 = h.R(r=1)(p=m.p, n=m.s)
+        return m, {"signal": m.s, "port": m.p, "bundle-port": m.bp, "bundle-instance": m.bi, "instance": m.i, "array": m.arr, "pair": m.pr}
+
+    def parent_pkg(m):
+        par = h.Module(name="TakeParent")
+        par.d, par.q = h.Diff(), h.Signal()
+        par.add(m(bp=par.d, p=par.q), name="u")
+        from hdl21.generators import Wrapper
+
+        # ... and by the built-in wrapper, which clones the ports (bundle-valued ones included) by the names they report
+        return h.to_proto(par).SerializeToString(deterministic=True) + h.to_proto(Wrapper(m)).SerializeToString(deterministic=True)
+
+    for what in ("signal", "port", "bundle-port", "bundle-instance", "instance", "array", "pair"):
+        for form in ("setattr", "add"):
+            for thief_kind in ("module", "bundle"):
+                if thief_kind == "bundle" and what in ("instance", "array", "pair"):
+                    continue
+                m, objs = owner()
+                h.elaborate(m)
+                before = (h.to_proto(m).SerializeToString(deterministic=True), parent_pkg(m))
+                thief = h.Module(name=f"Thief{next(_ctr)}") if thief_kind == "module" else h.Bundle(name=f"ThiefB{next(_ctr)}")
+                val = objs[what]
+                case = {"kind": "taking", "what": what, "form": form, "thief": thief_kind}
+                rec.case(key=f"taking:{what}:{form}:{thief_kind}", nontrivial=True, sample=case)
+                rec.count("taking.probed")
+                try:
+                    if form == "setattr":
+                        setattr(thief, "stolen", val)
+                    else:
+                        thief.add(val, name="stolen")
+                    rec.count("taking.accepted")
+                except Exception:
+                    rec.count("taking.refused")
+                try:
+                    after = (h.to_proto(m).SerializeToString(deterministic=True), parent_pkg(m))
+                except Exception as e:
+                    rec.violation("taking-damages-elaborated-owner", f"after a {thief_kind} took ({form}) the {what} of an elaborated module as 'stolen', the module / a new parent "
+                                  f"of it no longer exports: {type(e).__name__}: {str(e)[:100]}", case=case, taken=what)
+                    continue
+                if after != before:
+                    rec.violation("taking-damages-elaborated-owner", f"after a {thief_kind} took ({form}) the {what} of an elaborated module as 'stolen', the module or a new "
+                                  f"parent instantiating it exports a different package", case=case, taken=what)
+
+    # ports declared by external modules and primitives
+    def declared():
+        x = h.ExternalModule(name=f"TakeX{next(_ctr)}", domain="hvtake", port_list=[h.Input(name="g"), h.Port(name="d"), h.Port(name="s")], paramtype=h.HasNoParams)
+        pr = Primitive(name=f"TakeP{next(_ctr)}", desc="a private primitive", port_list=[h.Port(name="d"), h.Port(name="g")], paramtype=h.HasNoParams, primtype=PrimitiveType.IDEAL)
+        return x, pr
+
+    def user_pkg(x):
+        u = h.Module(name="TakeUser")
+        u.a, u.b, u.c = h.Signals(3)
+        u.add(x()(g=u.a, d=u.b, s=u.c), name="xx")
+        return h.to_proto(u).SerializeToString(deterministic=True)
+
+    for owner_kind in ("external", "primitive"):
+        for how in ("ports-dict", "port_list"):
+            for form in ("setattr", "add"):
+                for thief_kind in ("module", "bundle"):
+                    x, pr = declared()
+                    own = x if owner_kind == "external" else pr
+                    names = [p.name for p in own.port_list]
+                    before = user_pkg(x)
+                    thief = h.Module(name=f"Thief{next(_ctr)}") if thief_kind == "module" else h.Bundle(name=f"ThiefB{next(_ctr)}")
+                    vals = [own.ports["d"]] if how == "ports-dict" else [own.port_list[0], own.port_list[1]]
+                    newnames = ["vdd"] if how == "ports-dict" else [names[1], names[0]]
+                    case = {"kind": "taking", "what": f"{owner_kind}-declared-port", "form": form, "thief": thief_kind}
+                    rec.case(key=f"taking:{owner_kind}:{how}:{form}:{thief_kind}", nontrivial=True, sample=case)
+                    rec.count("taking.probed")
+                    for v, n in zip(vals, newnames):
+                        try:
+                            if form == "setattr":
+                                setattr(thief, n, v)
+                            else:
+                                thief.add(v, name=n)
+                            rec.count("taking.accepted")
+                        except Exception:
+                            rec.count("taking.refused")
+                    now = [p.name for p in own.port_list]
+                    try:
+                        after = user_pkg(x)
+                    except Exception as e:
+                        after = f"{type(e).__name__}"
+                    if now != names or after != before:
+                        rec.violation("taking-renames-declared-ports", f"a {thief_kind} took ({form}) port(s) of an {owner_kind} by `{how}`: its ports were {names} and are now {now}"
+                                      + ("; a design instantiating it exports differently" if after != before else ""), case=case, owner=owner_kind)
+                    # a copy is free to take
+                    try:
+                        thief2 = h.Module(name=f"Thief{next(_ctr)}")
+                        import copy as _copy
+                        thief2.add(_copy.copy(own.port_list[0]))
+                        rec.count("taking.copy-accepted")
+                    except Exception as e:
+                        rec.violation("copy-of-declared-port-refused", f"a copy of a declared port of an {owner_kind} was refused: {str(e)[:100]}", case=case)
+
+
 def class_vs_procedural(rec, rng, n):
     """A class-style definition equals the equivalent procedural one (exported packages agree)."""
     import hdl21 as h
@@ -727,6 +841,7 @@ def run(ctx, rec):
         reject_probes(rec)
         class_vs_procedural(rec, rng, 150 if ctx.quick else 2000)
         class_body_probes(rec)
+        taking_probes(rec)
     rec.exhaustive = ctx.nshards == 1
     _state["rec"] = None
 
@@ -744,6 +859,8 @@ def replay(ctx, rec, case):
         export_check(rec, case["history"])
     elif case.get("kind") == "probe":
         reject_probes(rec)
+    elif case.get("kind") == "taking":
+        taking_probes(rec)
     elif case.get("kind") == "style":
         import random
 
